@@ -46,7 +46,7 @@ type Scenario struct {
 	Par     int                `json:"par,omitempty"`   // session parallelism (default 4; 1 = a cluster of a single machine)
 	// Second: "scan" = a second scanner reads the first run's Result to its end between the moment the
 	// serving machine of the first scan dies and the first scan's reader reopens its stream (the retry
-	// back-off of the readers is 4 s in these scenarios): the shard is recomputed by somebody else
+	// back-off of the readers is 6 s or more in these scenarios): the shard is recomputed by somebody else
 	Second string `json:"second,omitempty"`
 	Rep    int    `json:"rep,omitempty"` // ordinal among identical scenarios
 	Repeat  int                `json:"repeat,omitempty"` // replays only: run the scenario this many times (outcomes that depend on the order in which a recomputed shuffle delivers its rows)
@@ -225,8 +225,11 @@ func runScenario(sc Scenario) (out Outcome) {
 	exec.ProbationTimeout = 300 * time.Millisecond
 	fastRetry := retry.MaxRetries(retry.Backoff(5*time.Millisecond, 50*time.Millisecond, 2), 5)
 	exec.VerifSetRetryPolicy(fastRetry)
+	lf := runner.LoadFactor()
 	if sc.Second != "" {
-		exec.VerifSetRetryPolicy(retry.MaxRetries(retry.Backoff(4*time.Second, 4*time.Second, 1), 5))
+		// the first scan's reader reopens its stream only after the second scanner is through, also on a busy host
+		back := 3*time.Second + time.Duration(3*lf*float64(time.Second))
+		exec.VerifSetRetryPolicy(retry.MaxRetries(retry.Backoff(back, back, 1), 2))
 	}
 	sys := faultsys.New(2)
 	sys.KeepalivePeriod = 100 * time.Millisecond
@@ -291,7 +294,7 @@ func runScenario(sc Scenario) (out Outcome) {
 							case <-time.After(20 * time.Millisecond):
 							}
 						}
-						time.Sleep(2200 * time.Millisecond)
+						time.Sleep(time.Second + time.Duration(1.2*lf*float64(time.Second)))
 						rows2, e2 := runner.Scan(ctx, res, schema)
 						if e2 != nil {
 							second <- ""
@@ -758,9 +761,12 @@ func TestVerifC02SingleKill(t *testing.T) {
 	// a second scanner recomputes the shard while the first scan's reader waits to reopen its stream
 	for _, p := range []string{"reshard", "reshuffle-root", "big-reshuffle"} {
 		n := counts[variant{p, 0}]["Worker.Read"]
-		reps := 3
+		reps := 2
+		if p == "reshard" {
+			reps = 6 // about one recomputation in four lines up with the bytes already read
+		}
 		if vt.Thorough() {
-			reps = 10
+			reps *= 4
 		}
 		for ord := n - 3; ord < n; ord++ {
 			if ord < 0 {
